@@ -3,9 +3,9 @@
    [run mulA mulAT rows cols sv b x0 n tol] is the Gallina model of
    solve_cg / solve_bicg (itol) / solve_bicgstab / solve_qmr (coq/Model/Iter.v) on a matrix given by
    its two products; it returns (Result, final x, ghost) or a panic. *)
-From Coq Require Import List Arith ZArith Floats.
+From Coq Require Import List Arith ZArith Floats Reals.
 From OV Require Import Base.Panic Base.Arith Model.Vector Model.Matrix Model.Sparse Model.Iter Inst.FloatInst Inst.QcInst
-  Proofs.Iter Proofs.IterField Proofs.IterInst.
+  Proofs.Iter Proofs.IterField Proofs.IterInst Proofs.IterR.
 Import ListNotations.
 
 (* ---- any arithmetic (floats included), any products, any sizes ---- *)
@@ -136,3 +136,23 @@ Proof.
   split; [exact exq_lin|].
   repeat split; apply (@ok_k_witness SAQ); vm_compute; reflexivity.
 Qed.
+
+(* ---- the real numbers with the standard square root (SAR, Proofs/IterR.v): the same statement as an
+        inequality between reals:  ||b - A x||_2 <= tol * ||b||'.  Uses the four standard-library axioms of R. ---- *)
+Theorem ok_means_solved_R : forall n (mulA mulAT : list R -> res (list R)) cols sv (b x0 : list R) max (tol : R) k x g,
+  @LinOp AR n mulA -> @run SAR mulA mulAT n cols sv b x0 max tol = Ok (IOk k, x, g) ->
+  exists ax, mulA x = Ok ax /\
+    (@norm2 SAR (@zipw AR Rminus b ax) <= tol * @nz SAR (@norm2 SAR b))%R.
+Proof. intros n mulA mulAT cols sv b x0 max tol k x g LO H. exact (run_ok_solved_R n mulA mulAT LO cols sv b x0 max tol k x g H). Qed.
+Check ok_means_solved_R : forall n (mulA mulAT : list R -> res (list R)) cols sv (b x0 : list R) max (tol : R) k x g,
+  @LinOp AR n mulA -> @run SAR mulA mulAT n cols sv b x0 max tol = Ok (IOk k, x, g) ->
+  exists ax, mulA x = Ok ax /\
+    (@norm2 SAR (@zipw AR Rminus b ax) <= tol * @nz SAR (@norm2 SAR b))%R.
+Print Assumptions ok_means_solved_R.
+
+(* non-vacuity over R: the CSC matrix [[4,1],[1,3]] is a LinOp and CG answers Ok on (b := A x0, x0 = (1,2)) *)
+Example ok_means_solved_R_nonvacuous :
+  @LinOp AR 2 (@sp_mul AR exr_s) /\
+  exists b g, length b = 2 /\
+    @run SAR (@sp_mul AR exr_s) (@sp_tmul AR exr_s) 2 2 CG b [1%R; 2%R] 5 1%R = Ok (IOk 0, [1%R; 2%R], g).
+Proof. split; [exact exr_lin|]. apply exr_run_ok. intros itol H; discriminate H. Qed.
